@@ -82,6 +82,11 @@ type Src struct {
 	UniformEOF bool
 	// MaxTrace bounds the recorded trace (choice points beyond it take the default).
 	MaxTrace int
+	// MaxDeliver, when > 0, makes the source fail once it has delivered that
+	// many bytes (a consumer that is already known to over-read is cut short
+	// instead of being fed gigabytes of virtual payload). CutOff reports it.
+	MaxDeliver int64
+	CutOff     bool
 }
 
 func (s *Src) total() int64 { return int64(len(s.Data)) + s.Tail }
@@ -143,6 +148,11 @@ func (s *Src) Read(p []byte) (int, error) {
 	}
 	if len(p) == 0 {
 		return 0, nil
+	}
+	if s.MaxDeliver > 0 && s.Delivered >= s.MaxDeliver {
+		s.CutOff = true
+		s.err = errors.New("envx: over-read cut-off")
+		return 0, s.err
 	}
 	rem := s.total() - s.pos
 	full := len(p)
